@@ -42,6 +42,10 @@ pub enum Kind {
     GaArchive,
     /// `es::es` assembled with an elitist archive
     EsArchive,
+    /// `de::de` assembled from the other shipped DE selections / crossovers
+    DeVariants,
+    /// `ga::ga` assembled from the other shipped selections, crossovers, mutations, repairs
+    GaVariants,
 }
 
 pub const SHIPPED: [Kind; 21] = [
@@ -76,6 +80,8 @@ impl Kind {
             Kind::Mmas => "max_min_ant_system",
             Kind::GaArchive => "ga+archive",
             Kind::EsArchive => "es+archive",
+            Kind::DeVariants => "de-variants",
+            Kind::GaVariants => "ga-variants",
         }
     }
     pub fn family(self) -> Family {
@@ -296,7 +302,12 @@ where
                         constraints: boundary::Saturation::new(),
                         archive: Some(archive::ElitistArchiveUpdate::new(c.pu("num_elitists") as usize)),
                         replacement: mahf::components::Block::new([
-                            replacement::Generational::new(pop),
+                            match c.pu("replacement_kind") {
+                                0 => replacement::Generational::new(pop),
+                                1 => replacement::MuPlusLambda::new(pop),
+                                2 => replacement::RandomReplacement::new(pop),
+                                _ => replacement::Merge::new(),
+                            },
                             archive::ElitistArchiveIntoPopulation::new(),
                         ]),
                     },
@@ -317,9 +328,81 @@ where
                         constraints: boundary::Saturation::new(),
                         archive: Some(archive::ElitistArchiveUpdate::new(c.pu("num_elitists") as usize)),
                         replacement: mahf::components::Block::new([
-                            replacement::MuPlusLambda::new(pop),
+                            match c.pu("replacement_kind") {
+                                0 => replacement::MuPlusLambda::new(pop),
+                                1 => replacement::RandomReplacement::new(pop),
+                                2 => replacement::DiscardOffspring::new(),
+                                _ => replacement::Generational::new(pop),
+                            },
                             archive::ElitistArchiveIntoPopulation::new(),
                         ]),
+                    },
+                    cond,
+                ))
+                .build())
+        }
+        Kind::DeVariants => {
+            use mahf::components::recombination::de::{DEBinomialCrossover, DEExponentialCrossover};
+            use mahf::components::selection::de::{DEBest, DECurrentToBest, DERand};
+            let (pop, y) = (c.pu("population_size"), c.pu("y"));
+            Ok(Configuration::builder()
+                .do_(initialization::RandomSpread::new(pop))
+                .evaluate()
+                .update_best_individual()
+                .do_(de::de::<P, Global>(
+                    de::Parameters {
+                        selection: match c.pu("selection_kind") {
+                            0 => DEBest::new(y)?,
+                            1 => DERand::new(y)?,
+                            _ => DECurrentToBest::new(y)?,
+                        },
+                        mutation: mutation::de::DEMutation::new(y, c.p("f"))?,
+                        crossover: if c.pu("crossover_kind") == 0 { DEBinomialCrossover::new(c.p("pc")) } else { DEExponentialCrossover::new(c.p("pc")) },
+                        constraints: if c.pu("boundary_kind") == 0 { boundary::Saturation::new() } else { boundary::Toroidal::new() },
+                        replacement: replacement::KeepBetterAtIndex::new(),
+                    },
+                    cond,
+                ))
+                .build())
+        }
+        Kind::GaVariants => {
+            let pop = c.pu("population_size");
+            let selection = match c.pu("selection_kind") {
+                0 => selection::Tournament::new(pop, c.pu("tournament_size")),
+                1 => selection::FullyRandom::new(pop),
+                2 => selection::RouletteWheel::new(pop, 0.5),
+                3 => selection::StochasticUniversalSampling::new(pop, 0.5),
+                4 => selection::LinearRank::new(pop),
+                5 => selection::ExponentialRank::new(pop, 0.5)?,
+                _ => selection::RandomWithoutRepetition::new(pop),
+            };
+            let crossover = match c.pu("crossover_kind") {
+                0 => recombination::UniformCrossover::new(c.p("pc"), c.pu("insert_both") == 1),
+                1 => recombination::NPointCrossover::new(1 + c.pu("crossover_points") as usize, c.p("pc"), c.pu("insert_both") == 1),
+                _ => recombination::ArithmeticCrossover::new(c.p("pc"), c.pu("insert_both") == 1),
+            };
+            let mutation = match c.pu("mutation_kind") {
+                0 => mutation::NormalMutation::new(c.p("deviation"), c.p("rm")),
+                1 => mutation::UniformMutation::new(c.p("deviation"), c.p("rm")),
+                _ => mutation::PartialRandomSpread::new(c.p("rm")),
+            };
+            Ok(Configuration::builder()
+                .do_(initialization::RandomSpread::new(pop))
+                .evaluate()
+                .update_best_individual()
+                .do_(ga::ga::<P, Global>(
+                    ga::Parameters {
+                        selection,
+                        crossover,
+                        pm: c.p("pm"),
+                        mutation,
+                        constraints: if c.pu("boundary_kind") == 0 { boundary::Saturation::new() } else { boundary::Toroidal::new() },
+                        archive: None,
+                        replacement: match c.pu("replacement_kind") {
+                            0 => replacement::Generational::new(pop),
+                            1 => replacement::MuPlusLambda::new(pop),
+                            _ => replacement::RandomReplacement::new(pop),
+                        },
                     },
                     cond,
                 ))
@@ -449,6 +532,7 @@ pub fn gen_case(g: &mut Gen, kind: Kind, o: &GenOpts) -> TCase {
             }
             if kind == Kind::GaArchive {
                 set("num_elitists", *g.pick(&[0.0, 1.0, 2.0, 5.0, 20.0]));
+                set("replacement_kind", g.below(4) as f64);
             }
         }
         Kind::Es | Kind::EsArchive => {
@@ -457,6 +541,7 @@ pub fn gen_case(g: &mut Gen, kind: Kind, o: &GenOpts) -> TCase {
             set("deviation", dev(g));
             if kind == Kind::EsArchive {
                 set("num_elitists", *g.pick(&[0.0, 1.0, 2.0, 5.0, 20.0]));
+                set("replacement_kind", g.below(4) as f64);
             }
         }
         Kind::De => {
@@ -465,6 +550,33 @@ pub fn gen_case(g: &mut Gen, kind: Kind, o: &GenOpts) -> TCase {
             set("population_size", (2 * y as usize + g.below(10)) as f64);
             set("f", match g.below(5) { 0 => 0.0, 1 => 2.0, _ => g.f64_in(0.0, 2.0) });
             set("pc", prob(g));
+        }
+        Kind::DeVariants => {
+            let y = 1 + g.below(2) as u32;
+            set("y", y as f64);
+            // DERand draws 2y+1, DECurrentToBest 2y-1 others: keep every variant well-formed
+            set("population_size", (2 * y as usize + 1 + g.below(9)) as f64);
+            set("f", g.f64_in(0.0, 2.0));
+            set("pc", prob(g));
+            set("selection_kind", g.below(3) as f64);
+            set("crossover_kind", g.below(2) as f64);
+            set("boundary_kind", g.below(2) as f64);
+        }
+        Kind::GaVariants => {
+            let pop = 1 + g.below(12) as u32;
+            set("population_size", pop as f64);
+            set("tournament_size", (1 + g.below(pop as usize)) as f64);
+            set("pc", prob(g));
+            set("pm", prob(g));
+            set("rm", prob(g));
+            set("deviation", dev(g));
+            set("selection_kind", g.below(7) as f64);
+            set("crossover_kind", g.below(3) as f64);
+            set("crossover_points", g.below(3) as f64);
+            set("insert_both", g.below(2) as f64);
+            set("mutation_kind", g.below(3) as f64);
+            set("boundary_kind", g.below(2) as f64);
+            set("replacement_kind", g.below(3) as f64);
         }
         Kind::Pso => {
             set("num_particles", (1 + g.below(12)) as f64);
@@ -545,7 +657,8 @@ pub fn gen_case(g: &mut Gen, kind: Kind, o: &GenOpts) -> TCase {
                 let max = min + g.f64_in(0.1, 5.0);
                 set("min_pheromones", min);
                 set("max_pheromones", max);
-                set("default_pheromones", g.f64_in(min, max));
+                // the initial trails may lie outside the bounds; the update has to bring them in
+                set("default_pheromones", match g.below(5) { 0 => max * g.f64_in(1.5, 10.0), 1 => min * g.f64_in(0.01, 0.9), _ => g.f64_in(min, max) });
             }
         }
     }
